@@ -107,8 +107,13 @@ prop("C16",
      bounds="see text", outside="Uuid::new over arbitrary contents", jobs=14, timeout=600, mir=None)
 
 
-for _p in ("C18",):
-    prop(_p, claimed=False, jobs=14, timeout=600, mir=True, level_text="", level_note="")
+prop("C18",
+     level_text="Three parts. (1) Refusal harnesses (Kani/CBMC, dev semantics) per caller-controlled field: the call with the oversized count/size must panic inside the crate on every path, or return bytes whose count/length field agrees with the content (255 elements/segments accepted, 256 refused, symbolic args > 7, symbolic lengths >= 2^28, 59 private resources, unrepresentable ranges, SLIT size). (2) Engine M on *release* MIR for the sites whose only dev-profile refusal is an overflow check (address ranges): 'does the function return with a wrong length' must be unsat; a sat witness is replayed with cargo test --release. (3) Narrowing-cast census from MIR, informational. " + K,
+     level_note=TRUST + " Sites whose witness needs >= 64 KiB of elements (ISA strings, SMBIOS handles, RIMT wires/mappings, VIOT/RQSC 16-bit accumulators) cannot be materialised in CBMC: they are pinned by the native demonstrations in findings/demo (cargo test, dev and release), not by a solver query.",
+     bounds="see text; PkgLength/field widths: all len in [2^28, usize::MAX-8]; method args: all of 8..=255",
+     outside="16-bit fields fed by >= 65536 real elements (native demos only); u32 table lengths (>= 4 GiB)",
+     jobs=14, timeout=600, mir=True,
+     technique="bounded model checking (Kani/CBMC) of refusal harnesses + MIR->SMT-LIB2 (release semantics) decided by z3")
 
 
 def bounds_of(prop_id, short):
